@@ -405,7 +405,7 @@ pub fn mutated_request(rng: &mut Rng, base_target: &str, buf: usize) -> (&'stati
     if rng.chance(1, 4) {
         return ("positional_mutation", positional_mutation(rng, t));
     }
-    match rng.below(54) {
+    match rng.below(57) {
         0 => ("valid_get", get(t)),
         1 => ("valid_head", req("HEAD", t, &[], b"")),
         2 => ("valid_options", req("OPTIONS", t, &[("Origin", "http://a.example"), ("Access-Control-Request-Method", "GET")], b"")),
@@ -629,6 +629,38 @@ v
                 _ => &[("Expect", "100-continue"), ("Content-Length", "5")],
             };
             ("connection_negotiation", req(*rng.pick(&["GET", "POST", "PUT"]), t, hs, b""))
+        }
+        54 => {
+            // a flood of one syntactic element at one position of an otherwise ordinary request, sized to
+            // the buffer: whatever is done once per element is done thousands of times
+            let room = buf.saturating_sub(120).max(16);
+            let (unit, at): (&str, u8) = *rng.pick(&[("\r\n", 0u8), ("\n", 0), (" ", 0), ("\r\n", 1), ("&", 2), ("a&", 2), ("=", 2), (";", 2), ("%", 2), ("+", 2), ("?", 2), ("#", 3), (".", 4), ("/./", 4), (",", 5), ("a,", 5), (";", 5), ("; q=1", 5), (" ", 5), ("\t", 5), ("\r\n ", 5), ("=", 5), ("\"", 5), ("(", 5)]);
+            let n = (room / unit.len()).min(40_000);
+            let n = if rng.chance(1, 3) { rng.range(1, n) } else { n };
+            let flood = unit.repeat(n);
+            let hname = *rng.pick(&["Accept", "Accept-Encoding", "Accept-Language", "Cookie", "Access-Control-Request-Headers", "Content-Type", "User-Agent", "X-Forwarded-For", "Cache-Control", "Origin"]);
+            let v = match at {
+                0 => format!("{}GET {} HTTP/1.1\r\nHost: h\r\n\r\n", flood, t),
+                1 => format!("GET {} HTTP/1.1\r\n{}Host: h\r\n\r\n", t, flood),
+                2 => format!("GET {}?{} HTTP/1.1\r\nHost: h\r\n\r\n", t, flood),
+                3 => format!("GET {}{} HTTP/1.1\r\nHost: h\r\n\r\n", t, flood),
+                4 => format!("GET /{}x HTTP/1.1\r\nHost: h\r\n\r\n", flood),
+                _ => format!("{} {} HTTP/1.1\r\nHost: h\r\nOrigin: http://a.example\r\n{}: {}\r\n\r\n", rng.pick(&["GET", "OPTIONS"]), t, hname, flood),
+            };
+            ("element_flood", v.into_bytes())
+        }
+        55 => {
+            // tens to thousands of range specs
+            let k = *rng.pick(&[21usize, 50, 200, 201, 202, 500, 1000, 2000]);
+            let k = k.min(buf.saturating_sub(100) / 4).max(2);
+            let specs: Vec<String> = (0..k).map(|i| { let a = match rng.below(3) { 0 => i % 10, 1 => 9 - i % 10, _ => rng.below(10) }; format!("{}-{}", a, a) }).collect();
+            ("many_ranges", req(*rng.pick(&["GET", "GET", "HEAD", "OPTIONS"]), t, &[("Range", &format!("bytes={}", specs.join(",")))], b""))
+        }
+        56 => {
+            // request headers that exist in the wild and that this server has never heard of, with the
+            // values that switch things on
+            let (n, v) = *rng.pick(super::real::SWITCH_HEADERS);
+            ("switch_header", req(*rng.pick(&["GET", "OPTIONS", "OPTIONS", "HEAD", "POST"]), t, &[("Origin", "http://a.example"), ("Access-Control-Request-Method", "GET"), (n, v)], b""))
         }
         51 => {
             let (n, v) = *rng.pick(super::real::CONDITIONAL_HEADERS);
